@@ -40,6 +40,8 @@ type checker struct {
 	verbose    io.Writer // replay: print model vs observed
 	maxDepth   int
 	dry        bool // VERIF_C06_DRY=1: model-level search only (sizing of the alphabets)
+	vtrace     string // ptrace supervisor (interleaving family)
+	self       string // this binary (reader child role)
 }
 
 type vio struct {
@@ -284,6 +286,9 @@ func searches(thorough bool) []*Search {
 	// (2b) retention against runs of several ages, some of them rewritten (Update) after their start:
 	//      the order of start times (file names) and the order of last writes (what retention looks at) disagree
 	add("retention/ages", []string{"a.yaml"}, []int{tOld2, tOld, tMid, tT0}, "run update removeold", []int{0, 7, 30}, d(4, 5), 4, 0)
+	// (2c) status payloads of about 1 KiB and 70 KiB (one status = one line of the history file)
+	add("payload/a", []string{"a.yaml"}, []int{tT0, tT3}, "run open update", nil, d(4, 5), 2, 1)
+	out[len(out)-1].Sizes = []string{"", "1k", "70k"}
 	// (3) every collision-prone pair: rename / retention / deletion across names
 	pairs := [][]string{
 		{"a.yaml", "ab.yaml"}, {"a.yaml", "a_c.yaml"}, {"a.yaml", "a.b.yaml"}, {"a.yaml", "a b.yaml"},
@@ -323,6 +328,10 @@ func findSearch(name string, dags []string) *Search {
 func main() {
 	log.SetOutput(io.Discard) // the store logs through the standard logger
 	time.Local = time.UTC
+	if p := os.Getenv("C06_READER"); p != "" {
+		readerMain(p) // child role of the interleaving family
+		return
+	}
 	fl := vlib.ParseFlags()
 	res := vlib.New("c06")
 	c := &checker{res: res, fl: fl}
@@ -351,14 +360,30 @@ func main() {
 	if fl.Replay != "" {
 		var rp struct {
 			Replay struct {
-				Search string   `json:"search"`
-				Dags   []string `json:"dags"`
-				Ops    []Op     `json:"ops"`
+				Search      string    `json:"search"`
+				Dags        []string  `json:"dags"`
+				Ops         []Op      `json:"ops"`
+				Interleaved *ilReplay `json:"interleaved"`
 			} `json:"replay"`
 		}
 		b, err := os.ReadFile(fl.Replay)
 		if err == nil {
 			err = json.Unmarshal(b, &rp)
+		}
+		if err == nil && rp.Replay.Interleaved != nil {
+			c.verbose = os.Stdout
+			c.ilReplayRun(*rp.Replay.Interleaved)
+			res.Transitions, res.States = 1, 1
+			res.Sample(rp.Replay.Interleaved.Group.String())
+			for _, v := range res.Violations {
+				fmt.Printf("\nVIOLATION %s\n  %s\n", v.Signature, v.Detail)
+			}
+			if len(res.Violations) == 0 {
+				fmt.Println("\nno violation")
+			}
+			res.Write(fl.Out)
+			os.RemoveAll(fl.Work)
+			return
 		}
 		if err != nil || len(rp.Replay.Ops) == 0 {
 			fmt.Fprintln(os.Stderr, "replay: cannot read operation list:", err)
@@ -386,6 +411,9 @@ func main() {
 	ss := searches(fl.Thorough())
 	c.dry = os.Getenv("VERIF_C06_DRY") != ""
 	maxDepth, maxRuns := 0, 0
+	if !c.dry {
+		c.interleavings() // one preemption of a reader inside a cached query (vtrace); groups dealt to shards
+	}
 	for _, s := range ss {
 		if c.dayChanged {
 			break
@@ -420,8 +448,10 @@ func main() {
 	res.Bounds["open_runs_at_once_max"] = 2
 	res.Bounds["retention_days"] = []int{0, 1, 30}
 	res.Bounds["recent_n"] = []int{1, 2, recentAll}
-	res.Bounds["transitions_total_all_shards"] = c.k
-	res.Rule = "member = operation history (shortest one per model state) + one enabled operation, executed on a fresh real jsondb store; distinct = distinct canonical reference-model state (runs per DAG with start time, request id, last status, open/closed, mtime class; start times used per DAG name); every state other than the empty one is non-trivial"
+	res.Bounds["transitions_total_all_shards"] = c.k - len(ilGroups())
+	res.Bounds["interleaved_groups"] = len(ilGroups())
+	res.Bounds["interleaved_preemptions_of_the_reader"] = 1
+	res.Rule = "interleaving family: member = (cache state cold|warm|stale, query ReadStatusRecent(1)|ReadStatusToday, writer Update|Write|Write+Close, K) = one preemption of the reading process at the entry of every relevant system call K (open/close/stat family under the installation) of its query, the write completed in the gap; distinct = (group, call class, occurrence). Search: member = operation history (shortest one per model state) + one enabled operation, executed on a fresh real jsondb store; distinct = distinct canonical reference-model state (runs per DAG with start time, request id, last status, open/closed, mtime class; start times used per DAG name); every state other than the empty one is non-trivial"
 	res.Assume("two runs of one DAG never start within the same millisecond (the file name cannot tell them apart); a start time is not reused under a DAG name after its run was removed")
 	res.Assume("a run left open is written through its own store instance (as the agent process of that run does); Update is only applied to closed runs (the client refuses it for a running one); after retention/deletion removed an open run's file its writer is not used again")
 	res.Assume("file mtimes are set to the run's nominal start time after Open/Write/Close (os.Chtimes), Update leaves mtime = now; today's nominal times lie in the past and the check does not run across UTC midnight")
